@@ -174,7 +174,90 @@ class _Solver:
         return cls.cls
 
 
-NOISE = {"none": None, "zero": 0.0, "half": 0.5}
+# ------------------------------------------------------------------ representations of one number / one array
+NOISE_VALUE = {"none": None, "zero": Fraction(0), "half": Fraction(1, 2), "one": Fraction(1), "two": Fraction(2)}
+IMPLEMENTED_LAWS = {"ArgumentsUnchanged", "EarlierResultsUnchanged", "ResultsAreCopies", "QueryIsPure",
+                    "RepresentationIrrelevant", "BystanderUnaffected", "RejectedChangesNothing", "AliasCoherent"}
+# (set_receive_filters used to clear the filters before rejecting bad arguments; repaired in /repo 4cafe15)
+CHECK_REJECTED_RECEIVE_FILTERS = True
+
+
+def scalar_as(q, rot):
+    """the number q (a Fraction, or None) in one of the representations the API accepts; the value is exact in all"""
+    if q is None:
+        return None
+    if q.denominator == 1:
+        v = int(q)
+        reps = [float(v), v, np.int64(v), np.float32(v), np.float64(v), np.int32(v)]
+        if v == 0:
+            reps.append(-0.0)
+        return reps[rot % len(reps)]
+    f = float(q)
+    reps = [f, np.float64(f)] + ([np.float32(f)] if float(np.float32(f)) == f else [])
+    return reps[rot % len(reps)]
+
+
+def array_as(a, rot):
+    """the same numbers in another memory layout / dtype: C, Fortran, strided view, read-only, integer dtype"""
+    a = np.asarray(a)
+    r = rot % 5
+    if r == 1:
+        return np.asfortranarray(a.copy())
+    if r == 2 and a.ndim == 2:
+        wide = np.zeros((a.shape[0], 2 * a.shape[1]), dtype=a.dtype)
+        wide[:, ::2] = a
+        return wide[:, ::2]
+    if r == 3:
+        b = a.copy()
+        b.setflags(write=False)
+        return b
+    if r == 4 and not np.iscomplexobj(a) and np.all(a == np.round(a)):
+        return a.astype(np.int64)
+    return a.copy()
+
+
+def _snapshot(x):
+    if isinstance(x, np.ndarray):
+        if x.dtype == object:
+            return ("obj", [_snapshot(e) for e in x])
+        return ("arr", x.dtype, x.shape, x.copy())
+    if isinstance(x, (list, tuple)):
+        return ("seq", [_snapshot(e) for e in x])
+    if isinstance(x, dict):
+        return ("dict", {k: _snapshot(v) for k, v in x.items()})
+    return ("val", x)
+
+
+def _same(snap, x):
+    kind = snap[0]
+    if kind == "obj":
+        return isinstance(x, np.ndarray) and x.dtype == object and len(x) == len(snap[1]) and \
+            all(_same(s, e) for s, e in zip(snap[1], x))
+    if kind == "arr":
+        return isinstance(x, np.ndarray) and x.dtype == snap[1] and x.shape == snap[2] and \
+            bool(np.all((x == snap[3]) | ((x != x) & (snap[3] != snap[3]))))
+    if kind == "seq":
+        return len(x) == len(snap[1]) and all(_same(s, e) for s, e in zip(snap[1], x))
+    if kind == "dict":
+        return set(x) == set(snap[1]) and all(_same(s, x[k]) for k, s in snap[1].items())
+    a, b = snap[1], x
+    return (a is b) or bool(a == b)
+
+
+def _scribble(x):
+    """write into a returned value in place (ResultsAreCopies); returns True when something was written"""
+    done = False
+    if isinstance(x, np.ndarray):
+        if x.dtype == object:
+            for e in x:
+                done = _scribble(e) or done
+        elif x.flags.writeable and x.size:
+            x[...] = -7
+            done = True
+    elif isinstance(x, list):
+        for e in x:
+            done = _scribble(e) or done
+    return done
 
 
 def _pl_power(inp, gain=1.0):
@@ -187,41 +270,75 @@ def _pl_power(inp, gain=1.0):
     return np.ones((K, K + ke)) * gain
 
 
-def _set_pathloss(ch, inp, gain=1.0):
+def _set_pathloss(ch, inp, gain=1.0, rot=0):
+    """returns the arrays that were handed over (the object keeps references to them)"""
     K = inp["K"]
     ext = len(inp["nte"]) > 0
     power = _pl_power(inp, gain)
     if power is None:
         ch.set_pathloss(None, None) if ext else ch.set_pathloss(None)
-    elif ext:
-        ch.set_pathloss(power[:, :K].copy(), power[:, K:].copy())
+        return None
+    if rot % 2 == 1 and np.all(power == np.round(power)) and np.max(power) < 2 ** 53:
+        power = power.astype(np.int64)          # integral path losses as integers
+    if ext:
+        args = [power[:, :K].copy(), power[:, K:].copy()]
     else:
-        ch.set_pathloss(power.copy())
+        args = [power.copy()]
+    snap = _snapshot(args)
+    ch.set_pathloss(*args)
+    if not _same(snap, args):
+        raise AssertionError("ArgumentsUnchanged: set_pathloss altered the matrix it was given")
+    return args
 
 
 def _init_channel(ch, inp):
+    """returns the channel matrix that was handed over (the object keeps a reference to it)"""
     K = inp["K"]
     H = _mat(inp["H"])
+    snap = H.copy()
     if len(inp["nte"]) > 0:
-        ch.init_from_channel_matrix(H.copy(), np.array(inp["nr"]), np.array(inp["nt"]), K, np.array(inp["nte"]))
+        ch.init_from_channel_matrix(H, np.array(inp["nr"]), np.array(inp["nt"]), K, np.array(inp["nte"]))
     else:
-        ch.init_from_channel_matrix(H.copy(), np.array(inp["nr"]), np.array(inp["nt"]), K)
+        ch.init_from_channel_matrix(H, np.array(inp["nr"]), np.array(inp["nt"]), K)
+    if not np.array_equal(snap, H):
+        raise AssertionError("ArgumentsUnchanged: init_from_channel_matrix altered the matrix it was given")
+    return H
 
 
-def build_channel(inp, gain=1.0):
-    """a fresh channel object for the case; gain multiplies every path-loss power and the noise variance"""
+def _rot(inp):
+    return inp["id"][0] * 7 + inp["id"][1]
+
+
+def build_channel(inp, gain=1.0, keep=None):
+    """a fresh channel object for the case; gain multiplies every path-loss power and the noise variance.
+    keep (a Session) receives the arrays handed over."""
     from pyphysim.channels import multiuser
     ch = multiuser.MultiUserChannelMatrixExtInt() if len(inp["nte"]) > 0 else multiuser.MultiUserChannelMatrix()
-    _init_channel(ch, inp)
+    H = _init_channel(ch, inp)
+    pl = None
     if inp["pl"] or gain != 1.0:
-        _set_pathloss(ch, inp, gain)
-    nv = NOISE[inp["noise"]]
-    ch.noise_var = nv if nv is None else nv * gain
+        pl = _set_pathloss(ch, inp, gain, _rot(inp))
+    nv = NOISE_VALUE[inp["noise"]]
+    if gain != 1.0:
+        ch.noise_var = None if nv is None else float(nv) * gain
+    else:
+        ch.noise_var = scalar_as(nv, _rot(inp))       # RepresentationIrrelevant: int / numpy integer / float32 / ...
+    if keep is not None:
+        keep.H_arg, keep.pl_args = H, pl
     return ch
 
 
 def solver_applies(inp):
     return (not inp["jp"]) and len(inp["nte"]) == 0
+
+
+def _expect_raise(what, f, bad):
+    """RejectedChangesNothing, first half: the call must be refused (the behavioural probe follows in compare)"""
+    try:
+        f()
+    except Exception:
+        return
+    bad.append(f"{what} was accepted (no exception)")
 
 
 class Session:
@@ -230,6 +347,13 @@ class Session:
     def __init__(self):
         self.ch = None
         self.solver = None
+        self.H_arg = None          # arrays handed to the channel object (it keeps references)
+        self.pl_args = None
+        self.F_arg = None          # arrays handed to the solver
+        self.U_arg = None
+        self.held = []             # (what, returned object, snapshot) of earlier results
+        self.bystander = None      # (channel, solver or None, call, snapshot of its answers)
+        self.pre = []              # violations found while applying (rejected calls that were accepted)
 
     def apply(self, case):
         """bring the objects to the case the way its `op` says"""
@@ -237,48 +361,88 @@ class Session:
         op = inp["op"]
         K = inp["K"]
         kind = op["kind"]
-        F = [_mat(inp["F"][k]) for k in range(K)]
-        U = [_mat(inp["U"][k]) for k in range(K)]
-        P = np.array([float(_rat(a) ** 2) for a in inp["pa"]])
+        rot = _rot(inp)
+        F = [array_as(_mat(inp["F"][k]), rot + k) for k in range(K)]
+        U = [array_as(_mat(inp["U"][k]), rot + k + 2) for k in range(K)]
+        Pq = [_rat(a) ** 2 for a in inp["pa"]]
+        P = np.array([float(q) for q in Pq])
+        if rot % 3 == 1 and all(q.denominator == 1 for q in Pq):
+            P = P.astype(np.int64)                    # integral powers as integers
         if kind in ("fresh", "init"):
-            self.ch = build_channel(inp)
+            self.ch = build_channel(inp, keep=self)
             if solver_applies(inp):
                 self.solver = _Solver.get()(self.ch)
         elif kind == "reinit":
-            _init_channel(self.ch, inp)             # same object, other antenna partition
+            self.H_arg = _init_channel(self.ch, inp)  # same object, other antenna partition
             if op["pl"] == "set":
-                _set_pathloss(self.ch, inp)
-            self.ch.noise_var = NOISE[inp["noise"]]
+                self.pl_args = _set_pathloss(self.ch, inp, rot=rot)
+            self.ch.noise_var = scalar_as(NOISE_VALUE[inp["noise"]], rot)
         if kind in ("fresh", "init", "reinit") and self.solver is not None:
             variant = (inp["id"][0] + inp["id"][1]) % 2
-            fullF = [math.sqrt(P[k]) * F[k] for k in range(K)]
+            fullF = [math.sqrt(float(P[k])) * F[k] for k in range(K)]
             if kind != "fresh" or variant == 0 or any(not np.any(f) for f in fullF):
-                self.solver.set_precoders(F=_objarr(F), P=P.copy())
-                self.solver.set_receive_filters(W=_objarr(U))
+                args = dict(F=_objarr(F), P=P.copy())
+                fargs = dict(W=_objarr(U))
             else:
-                self.solver.set_precoders(full_F=_objarr([f.copy() for f in fullF]))
-                self.solver.set_receive_filters(W_H=_objarr([u.conj().T for u in U]))
+                args = dict(full_F=_objarr([f.copy() for f in fullF]))
+                fargs = dict(W_H=_objarr([u.conj().T for u in U]))
+            snap = _snapshot([args, fargs])
+            self.solver.set_precoders(**args)
+            self.solver.set_receive_filters(**fargs)
+            if not _same(snap, [args, fargs]):
+                raise AssertionError("ArgumentsUnchanged: set_precoders / set_receive_filters altered their arguments")
+            self.F_arg, self.U_arg = args, fargs
         if kind == "power" and self.solver is not None:
             if op["pw"] == "vec":
-                self.solver.P = P.copy()
+                arg = P.copy() if rot % 2 else [scalar_as(q, rot + i) for i, q in enumerate(Pq)]   # array or list
+                snap = _snapshot(arg)
+                self.solver.P = arg
+                if not _same(snap, arg):
+                    raise AssertionError("ArgumentsUnchanged: the P setter altered the sequence it was given")
             elif op["pw"] == "scalar":
-                self.solver.P = float(P[0])
+                self.solver.P = scalar_as(Pq[0], rot)
             else:
                 self.solver.P = None
+        # RejectedChangesNothing: calls that must be refused; compare() then finds the object unchanged
+        if inp["chain"] and kind != "scribble":
+            ch, s = self.ch, self.solver
+            tag = f"[chain step {inp['step']}] rejected call "
+            _expect_raise(tag + "init_from_channel_matrix(wrong shape)",
+                          lambda: ch.init_from_channel_matrix(np.ones((1, 1), dtype=complex), np.array(inp["nr"]),
+                                                              np.array(inp["nt"]), K, *([np.array(inp["nte"])] if inp["nte"] else [])),
+                          self.pre)
+            _expect_raise(tag + "init_from_channel_matrix(K inconsistent with Nr)",
+                          lambda: ch.init_from_channel_matrix(_mat(inp["H"]), np.array(inp["nr"]), np.array(inp["nt"]), K + 1,
+                                                              *([np.array(inp["nte"])] if inp["nte"] else [])), self.pre)
+            _expect_raise(tag + "noise_var = -1", lambda: setattr(ch, "noise_var", -1.0), self.pre)
+            if s is not None:
+                _expect_raise(tag + "solver.P = -1", lambda: setattr(s, "P", -1.0), self.pre)
+                _expect_raise(tag + "solver.P = 0", lambda: setattr(s, "P", 0), self.pre)
+                _expect_raise(tag + "solver.P = sequence of length K + 1", lambda: setattr(s, "P", [1.0] * (K + 1)), self.pre)
+                _expect_raise(tag + "solver.P = [1, -2, ...]", lambda: setattr(s, "P", [1.0, -2.0] + [1.0] * (K - 2)), self.pre)
+                _expect_raise(tag + "solver.set_precoders()", lambda: s.set_precoders(), self.pre)
+                if CHECK_REJECTED_RECEIVE_FILTERS:
+                    _expect_raise(tag + "solver.set_receive_filters()", lambda: s.set_receive_filters(), self.pre)
+                    _expect_raise(tag + "solver.set_receive_filters(W, W_H)",
+                                  lambda: s.set_receive_filters(W=self.U_arg.get("W"), W_H=self.U_arg.get("W")), self.pre)
 
 
-def compare(sess, case):
+def compare(sess, case, light=False):
     """Compare everything the objects of the session report with the exact values of the case.
+    light: only the channel's SINR / Q and the solver's SINR / Q (used by the aliasing probes).
     Returns (comparisons, [violation texts], [texts with the signature of finding F_LIST])."""
     inp, out = case["inp"], case["out"]
     K, ns, nr = inp["K"], inp["ns"], inp["nr"]
     ext = len(inp["nte"]) > 0
     jp = inp["jp"]
     ch = sess.ch
-    bad = []
+    bad = list(sess.pre)
+    del sess.pre[:]
     known = []
-    n = [0]
+    n = [len(bad)]
+    rot = _rot(inp)
     tag = "" if inp["op"]["kind"] == "fresh" else f"[chain step {inp['step']} {inp['op']['kind']}/{inp['op']['pl']}/{inp['op']['pw']}] "
+    mine = []     # results returned during this comparison: (what, object, snapshot)
 
     def cmp(what, got, want):
         n[0] += 1
@@ -299,24 +463,34 @@ def compare(sess, case):
         for k in range(len(want_rows)):
             cmp(f"{what}[user {k}]", np.asarray(got[k], dtype=float), np.array(want_rows[k], dtype=float))
 
-    def guarded(what, f):
+    def guarded(what, f, *args, **kw):
+        """one public call: exceptions are mismatches; ArgumentsUnchanged; the result is remembered"""
+        snap = _snapshot([args, kw]) if (args or kw) else None
         try:
-            return f()
+            res = f(*args, **kw)
         except Exception as ex:
             n[0] += 1
             bad.append(f"{tag}{what} raised {type(ex).__name__}: {ex}")
             return None
+        if snap is not None:
+            n[0] += 1
+            if not _same(snap, [args, kw]):
+                bad.append(f"{tag}ArgumentsUnchanged: {what} altered an argument")
+        if isinstance(res, np.ndarray):
+            mine.append((what, res, _snapshot(res)))
+        return res
 
     pa = [float(_rat(a)) for a in inp["pa"]]
     F = [_mat(inp["F"][k]) for k in range(K)]
     U = [_mat(inp["U"][k]) for k in range(K)]
-    fullF = _objarr([pa[k] * F[k] for k in range(K)])      # "already taking into account the transmit power"
-    Uo = _objarr(U)
+    # "already taking into account the transmit power"; memory layout rotates with the case
+    fullF = _objarr([array_as(pa[k] * F[k], rot + k + 1) for k in range(K)])
+    Uo = _objarr([array_as(U[k], rot + k + 3) for k in range(K)])
     pe = _rat(inp["pe"])
     sc = _g(inp["sc"])
     variant = (inp["id"][0] + inp["id"][1]) % 2
     # external power: the default argument (1.0) is exercised by leaving pe out on every other case
-    pekw = {} if (not ext or (pe == 1 and variant == 0)) else {"pe": float(pe)}
+    pekw = {} if (not ext or (pe == 1 and variant == 0)) else {"pe": scalar_as(pe, rot)}
 
     sinr = [[float(_rat(x)) for x in row] for row in out["sinr"]]
     one_plus = [[_rat(x) for x in row] for row in out["onePlus"]]
@@ -327,15 +501,15 @@ def compare(sess, case):
     qmeth = "calc_JP_Q" if jp else "calc_Q"
     name = jname + ("(ext)" if ext else "")
     qname = qmeth + ("(ext)" if ext else "")
-    got = guarded(name, lambda: getattr(ch, jname)(fullF, Uo, **pekw))
+    got = guarded(name, getattr(ch, jname), fullF, Uo, **pekw)
     if got is not None:
         cmp_rows(name, got, sinr)
-    if variant == 1:
-        got = guarded(name + " with list arguments", lambda: getattr(ch, jname)(list(fullF), list(U), **pekw))
+    if variant == 1 and not light:
+        got = guarded(name + " with list arguments", getattr(ch, jname), list(fullF), list(U), **pekw)
         if got is not None:
             cmp_rows(name + " with list arguments", got, sinr)
     for k in range(K):
-        got = guarded(qname, lambda: getattr(ch, qmeth)(k, fullF, **pekw))
+        got = guarded(qname, getattr(ch, qmeth), k, fullF, **pekw)
         if got is not None:
             cmp(f"{qname}[user {k}]", got, Q[k])
             g = np.asarray(got)
@@ -343,7 +517,7 @@ def compare(sess, case):
             if g.shape == Q[k].shape and not np.allclose(g, g.conj().T, rtol=0, atol=TOL):
                 bad.append(f"{tag}{qname}[user {k}] is not Hermitian")
     # internal: the per-stream covariance the SINR is computed from (anchored mechanism)
-    for k in range(K):
+    for k in range(K if not light else 0):
         def bkl():
             if ext:
                 rek = ch.calc_cov_matrix_extint_plus_noise(float(pe))[k]
@@ -360,26 +534,27 @@ def compare(sess, case):
     # therefore unchanged for any magnitude and Q is multiplied by a^2.  One of four extreme settings per case.
     ga2 = float(_rat(inp["ga"]) ** 2)
     ex_c, ex_gain = [(1e-9, 1.0), (1e9, 1.0), (1.0, 1e-17 * ga2), (1.0, 1e17 * ga2)][(inp["id"][0] + inp["id"][1]) % 4]
-    for label, c, gain in (("", sc, 1.0), (" (extreme)", sc * ex_c, ex_gain)):
+    for label, c, gain in ((("", sc, 1.0), (" (extreme)", sc * ex_c, ex_gain)) if not light else ()):
         ch2 = ch if gain == 1.0 else guarded("channel with gain %g" % gain, lambda: build_channel(inp, gain))
         if ch2 is None:
             continue
         what = f"{name} with U x {c!r}, gain x {gain:g}{label}"
-        got = guarded(what, lambda: getattr(ch2, jname)(fullF, _objarr([c * u for u in U]), **pekw))
+        got = guarded(what, getattr(ch2, jname), fullF, _objarr([c * u for u in U]), **pekw)
         if got is not None:
             cmp_rows(what, got, sinr)
         if gain != 1.0:
             for k in range(K):
-                got = guarded(qname + " gain", lambda: getattr(ch2, qmeth)(k, fullF, **pekw))
+                got = guarded(qname + " gain", getattr(ch2, qmeth), k, fullF, **pekw)
                 if got is not None:
                     cmp(f"{qname}[user {k}] / gain with gain x {gain:g}", np.asarray(got) / gain, Q[k])
 
     # sum capacity of exact SINRs through util.misc
-    from pyphysim.util.misc import calc_shannon_sum_capacity
-    cap = sum(_log2_frac(q) for q in _flat(one_plus))
-    got = guarded("calc_shannon_sum_capacity", lambda: calc_shannon_sum_capacity(np.array(_flat(sinr), dtype=float)))
-    if got is not None:
-        cmp("calc_shannon_sum_capacity", got, cap)
+    if not light:
+        from pyphysim.util.misc import calc_shannon_sum_capacity
+        cap = sum(_log2_frac(q) for q in _flat(one_plus))
+        got = guarded("calc_shannon_sum_capacity", calc_shannon_sum_capacity, np.array(_flat(sinr), dtype=float))
+        if got is not None:
+            cmp("calc_shannon_sum_capacity", got, cap)
 
     # --- the IA solver base class (plain interference channel only)
     sol = out["sol"]
@@ -393,10 +568,16 @@ def compare(sess, case):
             if not _close(np.asarray(s.P, dtype=float), P):
                 bad.append(f"{tag}solver.P reports {np.asarray(s.P).tolist()} expected {P.tolist()}")
 
-        def solver_checks(s, label, gain=1.0):
+        def solver_checks(s, label, gain=1.0, light=False):
             got = guarded("solver.calc_SINR" + label, s.calc_SINR)
             if got is not None:
                 cmp_rows("solver.calc_SINR" + label, got, ssinr)
+            for k in range(K):
+                got = guarded("solver.calc_Q" + label, s.calc_Q, k)
+                if got is not None:
+                    cmp(f"solver.calc_Q[user {k}]{label}", np.asarray(got) / gain, Q[k])
+            if light:
+                return
             got = guarded("solver.calc_SINR_in_dB" + label, s.calc_SINR_in_dB)
             if got is not None:
                 want = [[(10.0 * (math.log10(q.numerator) - math.log10(q.denominator)) if q > 0 else -np.inf)
@@ -405,10 +586,6 @@ def compare(sess, case):
             got = guarded("solver.calc_sum_capacity" + label, s.calc_sum_capacity)
             if got is not None:
                 cmp("solver.calc_sum_capacity" + label, got, sum(_log2_frac(1 + q) for q in _flat(sq)))
-            for k in range(K):
-                got = guarded("solver.calc_Q" + label, lambda: s.calc_Q(k))
-                if got is not None:
-                    cmp(f"solver.calc_Q[user {k}]{label}", np.asarray(got) / gain, Q[k])
             # the two implementations agree: the channel object fed with the solver's full filters
             got = guarded("channel.calc_SINR(solver.full_F, solver.full_W)" + label,
                           lambda: s._multiUserChannel.calc_SINR(s.full_F, s.full_W))
@@ -425,11 +602,11 @@ def compare(sess, case):
                     t, d = float(tr), float(det)
                     want = (2.0 * d / (t + math.sqrt(max(t * t - 4.0 * d, 0.0)))) / t
                 got = guarded("solver.calc_remaining_interference_percentage" + label,
-                              lambda: s.calc_remaining_interference_percentage(k))
+                              s.calc_remaining_interference_percentage, k)
                 if got is not None:
                     cmp(f"(rel) solver.calc_remaining_interference_percentage[user {k}]{label}", got, want)
 
-        solver_checks(s, "")
+        solver_checks(s, "", light=light)
 
         def make(chx, Fs, Us, lists=False):
             s2 = _Solver.get()(chx)
@@ -441,39 +618,176 @@ def compare(sess, case):
                 s2.set_receive_filters(W_H=_objarr([u.conj().T for u in Us]))
             return s2
 
-        # the same solver fed with Python LISTS (documented input type of set_precoders / set_receive_filters).
-        # A mismatch here - and only here - has the signature of finding ListPrecodersScaledAlongStreams.
-        mark = len(bad)
-        got = guarded("solver.calc_SINR (precoders / filters given as lists)", lambda: make(ch, F, U, lists=True).calc_SINR())
+        if not light:
+            # the same solver fed with Python LISTS (documented input type of set_precoders / set_receive_filters).
+            # A mismatch here - and only here - has the signature of finding ListPrecodersScaledAlongStreams.
+            mark = len(bad)
+            got = guarded("solver.calc_SINR (precoders / filters given as lists)", lambda: make(ch, F, U, lists=True).calc_SINR())
+            if got is not None:
+                cmp_rows("solver.calc_SINR (precoders / filters given as lists)", got, ssinr)
+            known.extend(bad[mark:])
+            del bad[mark:]
+            # W -> c*W (ordinary and extreme c) and the channel gain must not change the solver's SINR either
+            chg = ch if ex_gain == 1.0 else guarded("channel with gain", lambda: build_channel(inp, ex_gain))
+            if chg is not None:
+                s2 = guarded("IASolverBaseClass with rescaled W", lambda: make(chg, F, [sc * ex_c * u for u in U]))
+                if s2 is not None:
+                    solver_checks(s2, f" with W x {sc * ex_c!r}, gain x {ex_gain:g} (extreme)", ex_gain)
+
+    if light:
+        return n[0], bad, known
+    # --- frame conditions (notes/CALL_DISCIPLINE.md)
+    # EarlierResultsUnchanged: what was returned before (earlier steps of the chain, earlier calls of this step) is intact
+    for what, obj, snap in sess.held + mine:
+        n[0] += 1
+        if not _same(snap, obj):
+            bad.append(f"{tag}EarlierResultsUnchanged: the value returned earlier by {what} was altered by later calls")
+    # BystanderUnaffected: a second object in the same process still answers what it answered
+    if sess.bystander is not None:
+        bch, bcall, bsnap = sess.bystander
+        again = guarded("bystander", bcall)
+        n[0] += 1
+        if again is not None and not _same(bsnap, again):
+            bad.append(f"{tag}BystanderUnaffected: another channel object in the process changed its answers")
+    # ResultsAreCopies + QueryIsPure: write into everything that was returned, then ask again
+    sess.held = mine[:1]                       # the first SINR result stays untouched for the next step of the chain
+    wrote = False
+    for what, obj, snap in mine[1:]:
+        wrote = _scribble(obj) or wrote
+    got = guarded(name + " (asked again after writing into returned values)", getattr(ch, jname), fullF, Uo, **pekw)
+    if got is not None:
+        cmp_rows(name + " (asked again after writing into returned values)", got, sinr)
+    got = guarded(qname + " (asked again)", getattr(ch, qmeth), 0, fullF, **pekw)
+    if got is not None:
+        cmp(f"{qname}[user 0] (asked again after writing into returned values)", got, Q[0])
+    if sol["ok"] and s is not None:
+        got = guarded("solver.calc_SINR (asked again)", s.calc_SINR)
         if got is not None:
-            cmp_rows("solver.calc_SINR (precoders / filters given as lists)", got, ssinr)
-        known.extend(bad[mark:])
-        del bad[mark:]
-        # W -> c*W (ordinary and extreme c) and the channel gain must not change the solver's SINR either
-        chg = ch if ex_gain == 1.0 else guarded("channel with gain", lambda: build_channel(inp, ex_gain))
-        if chg is not None:
-            s2 = guarded("IASolverBaseClass with rescaled W", lambda: make(chg, F, [sc * ex_c * u for u in U]))
-            if s2 is not None:
-                solver_checks(s2, f" with W x {sc * ex_c!r}, gain x {ex_gain:g} (extreme)", ex_gain)
+            cmp_rows("solver.calc_SINR (asked again after writing into returned values)", got,
+                     [[float(_rat(x)) for x in row] for row in sol["sinr"]])
     return n[0], bad, known
 
 
+def _amp_big(inp, power):
+    """per-antenna amplitude matrix for a K x (K+Ke) path-loss POWER matrix (None: ones)"""
+    rows = sum(inp["nr"])
+    counts = list(inp["nt"]) + list(inp["nte"])
+    cols = sum(counts)
+    if power is None:
+        return np.ones((rows, cols))
+    return np.sqrt(np.repeat(np.repeat(np.asarray(power, dtype=float), inp["nr"], axis=0), counts, axis=1))
+
+
+def alias_probe(sess, step_case, leaf):
+    """AliasCoherent: the caller writes one entry of an array it handed over earlier.  Refused -> nothing may have
+    changed; accepted -> the object must behave as if set up with the modified array, or - when it reports the old
+    values (it had made a copy) - as before.  Returns (comparisons, bad, known)."""
+    inp, new = step_case["inp"], leaf["inp"]
+    K = inp["K"]
+    ch = sess.ch
+    target = new["op"]["pl"]
+    i, j = new["scr"][0] - 1, new["scr"][1] - 1
+    tag = f"[alias probe after step {inp['step']}: write into the {'path-loss' if target == 'pl' else 'channel'} matrix handed over] "
+    if target == "pl":
+        if not sess.pl_args:
+            return 0, [], []
+        arr, jj = (sess.pl_args[0], j) if j < K else (sess.pl_args[1], j - K)
+        val = float(_rat(new["pl"][i][j]) ** 2)
+    else:
+        arr, jj = sess.H_arg, j
+        val = _g(new["H"][i][j])
+    if arr.dtype.kind in "iu" and val != int(val):
+        return 0, [], []          # (an integer array cannot hold the new value)
+    old = arr[i, jj]
+    try:
+        arr[i, jj] = val
+        accepted = True
+    except ValueError:
+        accepted = False
+    if not accepted:
+        n, bad, known = compare(sess, step_case, light=True)     # refused: nothing may have changed
+        return n, [tag + "(write refused) " + b for b in bad], known
+    # accepted: which array does the object report?
+    p_new, p_old = _pl_power(new), _pl_power(inp)
+    rep = ch.pathloss
+    rep = None if rep is None else np.asarray(rep, dtype=float)
+    which = None
+    for name, pw, raw in (("new", p_new, new["H"]), ("old", p_old, inp["H"])):
+        same_pl = (rep is None and pw is None) or (rep is not None and pw is not None and rep.shape == pw.shape and np.allclose(rep, pw, rtol=0, atol=1e-12))
+        big = _mat(raw) * _amp_big(inp, pw)
+        if same_pl and np.allclose(np.asarray(ch.big_H), big, rtol=0, atol=1e-9):
+            which = name
+            break
+    if which is None:
+        res = (1, [tag + "(write accepted) pathloss / big_H report neither the old nor the modified array coherently"], [])
+    else:
+        n, bad, known = compare(sess, leaf if which == "new" else step_case, light=True)
+        res = (n, [tag + f"(write accepted, object reports the {which} array) " + b for b in bad], known)
+    arr[i, jj] = old          # undo, the chain continues from the step itself
+    n2, bad2, known2 = compare(sess, step_case, light=True)
+    return res[0] + n2, res[1] + [tag + "(after undoing the write) " + b for b in bad2], res[2] + known2
+
+
+def solver_alias_probe(sess, step_case):
+    """(rel) the precoders / filters handed to the solver are kept by reference too: after an in-place write the
+    solver's SINR must still be the SINR of the full precoders / filters the solver itself reports."""
+    s = sess.solver
+    if s is None or not step_case["out"]["sol"]["ok"] or sess.F_arg is None:
+        return 0, [], []
+    bad = []
+    arrs = [a for a in (sess.F_arg.get("F"), sess.F_arg.get("full_F"), sess.U_arg.get("W"), sess.U_arg.get("W_H")) if a is not None]
+    for a in arrs:
+        m = a[0]
+        if not m.flags.writeable:
+            continue
+        old = m[0, 0]
+        m[0, 0] = old + 1.0
+        try:
+            mine = np.hstack(list(s.calc_SINR()))
+            ref = np.hstack(list(s._multiUserChannel.calc_SINR(s.full_F, s.full_W)))
+            if not _close(mine, ref):
+                bad.append(f"[alias probe after step {step_case['inp']['step']}: write into a matrix handed to the solver] (rel) "
+                           f"solver.calc_SINR {mine.tolist()} is not the SINR of the solver's own full_F / full_W {ref.tolist()}")
+        except Exception as ex:
+            bad.append(f"[alias probe: write into a matrix handed to the solver] raised {type(ex).__name__}: {ex}")
+        m[0, 0] = old
+    n, bad2, known = compare(sess, step_case, light=True)
+    return n + len(arrs), bad + ["[after undoing the write into the solver's matrices] " + b for b in bad2], known
+
+
 def run_unit(unit):
-    """unit = list of cases: one star case, or the consecutive cases of a chain (sorted by step).
-    Returns a list of (comparisons, bad, known), one per case (a chain stops at the first step that cannot be applied)."""
-    res = []
+    """unit = list of cases: one star case, or the consecutive cases of a chain (sorted by step) followed by its
+    aliasing leaves.  Returns a list of (comparisons, bad, known), one per case."""
+    steps = [c for c in unit if c["inp"]["op"]["kind"] != "scribble"]
+    leaves = {c["inp"]["step"]: c for c in unit if c["inp"]["op"]["kind"] == "scribble"}
+    res = {}
     sess = Session()
     with np.errstate(all="ignore"):
-        for case in unit:
+        for case in steps:
+            inp = case["inp"]
             try:
                 sess.apply(case)
+                if inp["chain"] and sess.bystander is None:
+                    # BystanderUnaffected: a second, independent channel object answers the same question after every step
+                    bch = build_channel(inp)
+                    pa = [float(_rat(a)) for a in inp["pa"]]
+                    bF = _objarr([pa[k] * _mat(inp["F"][k]) for k in range(inp["K"])])
+                    bU = _objarr([_mat(inp["U"][k]) for k in range(inp["K"])])
+                    bcall = (lambda b=bch, f=bF, u=bU, jp=inp["jp"]: (b.calc_JP_SINR if jp else b.calc_SINR)(f, u))
+                    sess.bystander = (bch, bcall, _snapshot(bcall()))
             except Exception as ex:
-                res.append((1, [f"step {case['inp']['step']} ({case['inp']['op']}) raised {type(ex).__name__}: {ex}"], []))
+                res[id(case)] = (1, [f"step {inp['step']} ({inp['op']}) raised {type(ex).__name__}: {ex}"], [])
                 break
-            res.append(compare(sess, case))
-    while len(res) < len(unit):
-        res.append((0, [], []))
-    return res
+            res[id(case)] = compare(sess, case)
+            leaf = leaves.get(inp["step"])
+            if leaf is not None and inp["chain"]:
+                try:
+                    r1 = alias_probe(sess, case, leaf)
+                    r2 = solver_alias_probe(sess, case)
+                    res[id(leaf)] = (r1[0] + r2[0], r1[1] + r2[1], r1[2] + r2[2])
+                except Exception as ex:
+                    res[id(leaf)] = (1, [f"alias probe after step {inp['step']} raised {type(ex).__name__}: {ex}"], [])
+    return [res.get(id(c), (0, [], [])) for c in unit]
 
 
 # ------------------------------------------------------------------------------- the check
@@ -508,14 +822,17 @@ def plan(tier):
 
 
 def units_of(cases):
-    """star cases one by one; chain cases grouped by chain and ordered by step (only gap-free prefixes)"""
-    units, chains = [], {}
+    """star cases one by one; chain cases grouped by chain and ordered by step (only gap-free prefixes), followed by
+    the aliasing leaves of those steps"""
+    units, chains, leaves = [], {}, {}
     for c in cases:
         ch = c["inp"]["chain"]
-        if ch:
-            chains.setdefault(tuple(ch), {})[c["inp"]["step"]] = c
-        else:
+        if not ch:
             units.append([c])
+        elif c["inp"]["op"]["kind"] == "scribble":
+            leaves.setdefault(tuple(ch), {})[c["inp"]["step"]] = c
+        else:
+            chains.setdefault(tuple(ch), {})[c["inp"]["step"]] = c
     for key in sorted(chains):
         steps = chains[key]
         unit = []
@@ -523,6 +840,7 @@ def units_of(cases):
         while i in steps:
             unit.append(steps[i])
             i += 1
+        unit += [leaf for st, leaf in sorted(leaves.get(key, {}).items()) if st < i]
         units.append(unit)
     return units
 
@@ -584,9 +902,13 @@ def run(ctx):
     for e in cases:
         kind = e["inp"]["op"]["kind"]
         act = ("PickExhaustive" if e["inp"]["id"][0] == 0 else "PickSeeded") if kind == "fresh" else \
-              ("ChainStart" if kind == "init" else "ChainStep")
+              ("ChainStart" if kind == "init" else "ChainLeaf" if kind == "scribble" else "ChainStep")
         ctx.actions[act] = ctx.actions.get(act, 0) + 1
-    ctx.require_actions(["PickExhaustive", "PickSeeded", "ChainStart", "ChainStep"])
+        missing = set(e["out"]["req"]) - IMPLEMENTED_LAWS
+        if missing:
+            raise tlc.TlcError(f"the specification requires laws the replay does not implement: {sorted(missing)}")
+    ctx.require_actions(["PickExhaustive", "PickSeeded", "ChainStart", "ChainStep", "ChainLeaf"])
+    ctx.notes["required_laws"] = sorted({l for e in cases for l in e["out"]["req"]})
     units = units_of(cases)
     res = pool_map(run_unit, units, chunksize=max(1, len(units) // 128))
     comparisons = 0
@@ -602,7 +924,7 @@ def run(ctx):
                 k = f"{inp['op']['kind']}/{inp['op']['pl']}/{inp['op']['pw']}"
                 chain_steps[k] = chain_steps.get(k, 0) + 1
             # a chain is replayed from its first step: the stored case is the prefix of the unit
-            stored = {"unit": unit[: unit.index(case) + 1]}
+            stored = {"unit": unit if inp["op"]["kind"] == "scribble" else unit[: unit.index(case) + 1]}
             if known:
                 ctx.finding(F_LIST, f"case {inp['id']}: " + "; ".join(known[:2]), dict(stored, mismatches=known[:6]))
             if bad:
